@@ -52,7 +52,11 @@ def build_df(case):
     else:
         v = np.array(vals, dtype=dt)
     n = len(vals)
-    return pd.DataFrame({"v": v, "a": np.array(case["a"][:n], dtype=float), "B": pd.Series([["q", "p", "r"][i % 3] for i in case["b"][:n]], dtype=object)})
+    df = pd.DataFrame({"v": v, "a": np.array(case["a"][:n], dtype=float), "B": pd.Series([["q", "p", "r"][i % 3] for i in case["b"][:n]], dtype=object)})
+    if case.get("index") == "rev":
+        # row labels that are not 0..n-1 (values must never be re-aligned on labels)
+        df.index = [3 + n - i for i in range(n)]
+    return df
 
 
 def frame_case(case):
@@ -201,18 +205,23 @@ def gen():
                 vals[0] = 2**53 + 1  # not representable as a float: an integer column passes through unchanged
         else:
             vals = draw(st.lists(st.sampled_from([-2.5, -1.0, 0.0, 0.5, 1.0, 3.0, 100.0]), min_size=n, max_size=n))
+        allnull = dt in TEXT and draw(st.integers(0, 3)) == 0
+        if allnull:
+            dt = draw(st.sampled_from(["object", "object", dt]))
         return {
+            "index": draw(st.sampled_from([None, None, "rev"])),
             "dtype": dt, "values": vals, "categories": cats,
             "a": draw(st.lists(st.sampled_from([-1.0, 0.5, 1.0, 2.0, 3.0]), min_size=8, max_size=8)),
             "b": draw(st.lists(st.integers(0, 2), min_size=8, max_size=8)),
             "formula": draw(st.integers(0, len(FORMULAS) - 1)), "intercept": draw(st.booleans()),
-            "mat": draw(st.sampled_from(["pandas", "pandas", "nw-pandas", "nw-arrow", "pandas-dict"])),
+            # (an entirely missing text column is only observable without an Arrow round trip, and kept under "ignore")
+            "mat": draw(st.sampled_from(["pandas", "nw-pandas", "nw-pandas", "pandas-dict"] if allnull else ["pandas", "pandas", "nw-pandas", "nw-arrow", "pandas-dict"])),
             "output": draw(st.sampled_from(["pandas", "numpy", "sparse"])), "efr": draw(st.booleans()),
             "nulls": draw(st.one_of(st.just([]), st.just([]), st.lists(st.integers(0, 7), min_size=1, max_size=2))),
             "prime": draw(st.integers(0, 4)) == 0,
             "explicit_levels": draw(st.integers(0, 3)) == 0,
-            "allnull": dt in TEXT and draw(st.integers(0, 7)) == 0,
-            "na_action": draw(st.sampled_from(["drop", "drop", "ignore"])),
+            "allnull": allnull,
+            "na_action": draw(st.sampled_from(["ignore", "ignore", "drop"] if allnull else ["drop", "drop", "ignore"])),
         }
 
     return strat()
